@@ -105,6 +105,10 @@ def build_cols(cform, P, names, B):
         return (el if cform[:4] == 'list' else tuple(el)), 'std'
     if cform == 'ell':
         return Ellipsis, 'std'
+    if cform == 'perm4':
+        import itertools
+        perm = list(itertools.permutations(range(4)))[ch.pick(P['pi'], 0, 24)]
+        return [names[j] if P['isname'][0] and j % 2 else j for j in perm], 'std'
     if cform == 'boollist':
         return [P['m0'], P['m1'], P['m2'], P['m0']][:P['D']], 'other'
     if cform == 'npint':
@@ -286,7 +290,7 @@ def body_get(B, I):
         if step > 0:
             # later steps use the second half of the symbolic pool
             for k in list(DEFAULTS):
-                Ps[k] = P[k + '_2']
+                Ps[k] = P[k + '_B']
         rows = build_rows(I['rform'] if step == 0 else I.get('rform2', I['rform']), Ps)
         cform = I['cform'] if step == 0 else I.get('cform2', I['cform'])
         if cform == 'absent':
@@ -401,13 +405,15 @@ COL_PARAMS = {
     'boollist': ([('m0', 'bool'), ('m1', 'bool'), ('m2', 'bool')], []),
     'none': ([], []),
 }
+COL_PARAMS['perm4'] = ([('pi', 'int'), ('isname', 'Tuple[bool, bool, bool]')], ['0 <= pi <= 23'])
+COL_EST['perm4'] = 48
 COL_PARAMS['tuple'] = COL_PARAMS['list']
 for _n in range(4):
     COL_PARAMS['list%d' % _n] = COL_PARAMS['list']
     COL_PARAMS['tuple%d' % _n] = COL_PARAMS['list']
 NAME_TABLE = ('a', 'b', 'c', 'd', 'zz', '')
 DEFAULTS = dict(k1=0, k2=0, a=0, b=0, s=1, an=True, bn=True, sn=True, m0=True, m1=True, m2=True,
-                c=(0, 0, 0), isname=(False, False, False), nm0='a', nmi=(0, 0, 0),
+                c=(0, 0, 0), isname=(False, False, False), nm0='a', nmi=(0, 0, 0), pi=0,
                 ca=0, cb=0, cs=1, can=True, cbn=True, csn=True)
 
 
@@ -418,7 +424,7 @@ def make_cond(rform, cform, N, D, steps, maxlen, setitem=False, cform2=None, rfo
     def make(env):
         params, pre, seen = [], [], set()
         consts = dict(DEFAULTS)
-        consts.update({k + '_2': v for k, v in DEFAULTS.items()})
+        consts.update({k + '_B': v for k, v in DEFAULTS.items()})
 
         def add(ps, pr, cst, suffix=''):
             for (n, t) in ps:
@@ -444,8 +450,8 @@ def make_cond(rform, cform, N, D, steps, maxlen, setitem=False, cform2=None, rfo
             add(ps, pr, cst)
             add(COL_PARAMS[cform][0], COL_PARAMS[cform][1], {})
             _, ps, pr, cst = row_spec(rform2, cform2, b1)
-            add(ps, pr, cst, '_2')
-            add(COL_PARAMS[cform2][0], COL_PARAMS[cform2][1], {}, '_2')
+            add(ps, pr, cst, '_B')
+            add(COL_PARAMS[cform2][0], COL_PARAMS[cform2][1], {}, '_B')
         for n, _ in params:
             consts.pop(n, None)
         consts.update(rform=rform, cform=cform, N=N, D=D, steps=steps, maxlen=maxlen)
@@ -569,6 +575,15 @@ def conditions(tier):
                            doc='d[rows:%s, cols:%s] = v writes exactly the addressed cells'
                                % (rf, cf)))
     # chains: first step a 2-d-preserving selection, second step any column form
+    for rf in ('ell', 'slice', 'mask'):
+        cs.append(Cond('get_%s_perm4' % rf, make=make_cond(rf, 'perm4', 3, 4, 1, maxlen,
+                                                           budget=budget),
+                       replay=replay_for(False), timeout=tmo,
+                       doc='3x4 sample, all four channels listed in a symbolic order (names and '
+                           'positions mixed): values and metadata follow the requested order'))
+    cs.append(Cond('set_ell_perm4', make=make_cond('ell', 'perm4', 3, 4, 1, maxlen, True,
+                                                   budget=budget),
+                   replay=replay_for(True), timeout=tmo, doc='assignment through the same key'))
     if q:
         chains = [(('ell', 'list1'), ('ell', 'int')), (('ell', 'list1'), ('ell', 'name')),
                   (('ell', 'list1'), ('int', 'absent')), (('ell', 'list1'), ('ell', 'list1')),
